@@ -28,6 +28,11 @@ type Cfg struct {
 	Grow int  `json:"grow"`
 	Min  bool `json:"min"`
 	Ctx  bool `json:"ctx,omitempty"` // an (undone) context is attached
+	// CtxMode says which undone context and when (only with Ctx): "" an uncancelled WithCancel attached before the
+	// program is loaded; "bg" context.Background(); "deadline" a WithTimeout of one hour; "removed" attached and removed
+	// again before the program runs; "late" attached by the program's call of setctx() (coroutines exist already);
+	// "midrm" attached before the program, removed by the program's call of rmctx()
+	CtxMode string `json:"ctxmode,omitempty"`
 	Pkg  bool `json:"pkg,omitempty"` // the third way of configuring: the package variables lua.CallStackSize / lua.RegistrySize /
 	// lua.RegistryGrowStep are set to CSS / Reg / Grow and the state is made by lua.NewState() without arguments
 }
@@ -174,11 +179,68 @@ func runJob(j Job) (out JobOut) {
 	L, restore := j.Cfg.newState()
 	defer restore()
 	defer L.Close()
+	attach := func() {}
 	if j.Cfg.Ctx {
-		ctx, cancel := context.WithCancel(context.Background())
+		var ctx context.Context
+		cancel := func() {}
+		switch j.Cfg.CtxMode {
+		case "bg":
+			ctx = context.Background()
+		case "deadline":
+			ctx, cancel = context.WithTimeout(context.Background(), time.Hour)
+		default:
+			ctx, cancel = context.WithCancel(context.Background())
+		}
 		defer cancel()
-		L.SetContext(ctx)
+		attach = func() { L.SetContext(ctx) }
+		switch j.Cfg.CtxMode {
+		case "late":
+		case "removed":
+			attach()
+			L.RemoveContext()
+		default:
+			attach()
+		}
 	}
+	// setctx() / rmctx(): the program says where a context is attached to / removed from the state (main thread);
+	// no-ops unless the configuration asks for it, so that every configuration runs the same program
+	L.SetGlobal("setctx", L.NewFunction(func(*lua.LState) int {
+		if j.Cfg.Ctx && j.Cfg.CtxMode == "late" {
+			attach()
+		}
+		return 0
+	}))
+	L.SetGlobal("rmctx", L.NewFunction(func(*lua.LState) int {
+		if j.Cfg.Ctx && j.Cfg.CtxMode == "midrm" {
+			L.RemoveContext()
+		}
+		return 0
+	}))
+	// goresume(co, ...): coroutine.resume through the Go API (LState.Resume called by a Go function)
+	L.SetGlobal("goresume", L.NewFunction(func(L *lua.LState) int {
+		th := L.CheckThread(1)
+		n := L.GetTop()
+		args := make([]lua.LValue, 0, n)
+		for i := 2; i <= n; i++ {
+			args = append(args, L.Get(i))
+		}
+		L.SetTop(1)
+		st, err, vals := L.Resume(th, nil, args...)
+		if st == lua.ResumeError {
+			L.Push(lua.LFalse)
+			if ae, ok := err.(*lua.ApiError); ok && ae.Object != nil {
+				L.Push(ae.Object)
+			} else {
+				L.Push(lua.LString(err.Error()))
+			}
+			return 2
+		}
+		L.Push(lua.LTrue)
+		for _, v := range vals {
+			L.Push(v)
+		}
+		return 1 + len(vals)
+	}))
 	var markL *lua.LState
 	L.SetGlobal("emit", L.NewFunction(func(L *lua.LState) int {
 		n := L.GetTop()
@@ -667,6 +729,8 @@ type limitProg struct {
 	// wide: one operation of the program asks for ~150 cells at once (a frame with 150 locals): also aim
 	// 57 and 160 cells beyond the limit so that the overflow happens in that operation
 	wide bool
+	// handover: the operation at the limit is a coroutine handing values to its resumer (wave5.go); own configurations
+	handover bool
 }
 
 var limitProgs = []limitProg{
@@ -999,6 +1063,12 @@ func genLimits(w *lib.Writer, r *lib.Rand, tier string) {
 	for pi := range limitProgs {
 		p := &limitProgs[pi]
 		cfgs := limitCfgs(p.kind, tier)
+		if p.handover {
+			cfgs = handoverCfgs(tier)
+		}
+		if only := os.Getenv("C12_PROG"); only != "" && !strings.HasPrefix(p.name, only) { // development aid
+			continue
+		}
 		if p.name == "rec-meta" {
 			// every level nests a call from Go into the interpreter: above ~190 levels the "C stack overflow"
 			// limit (independent of Options, see genCcalls) comes first
